@@ -479,7 +479,7 @@ pub fn check_outcome(o: &Outcome, ovh: usize, vsz: usize) -> Vec<Fail> {
             want_drops.push(e.v.tok);
         }
     }
-    if let OpKind::It { kind, calls, forget } = op {
+    if let OpKind::It { kind, calls, forget, .. } = op {
         if !kind.borrowing() {
             // drain: unconsumed entries are dropped unless the iterator is forgotten
             let consumed = calls.len().min(pre.ord.len());
